@@ -832,3 +832,38 @@ func TestC01_KdfRandom(t *testing.T) {
 		return c
 	}, checkKdf)
 }
+
+// TestC01_KdfCounterBytes crosses the output-block counts at which the 32-bit
+// block counter carries into its second (256 blocks, n > 8160 bytes) and third
+// byte (65536 blocks, n > 2 MiB): the multi-lane paths write the counter per
+// lane and per batch, so a missed carry shows only there. (The fourth byte
+// needs 512 MiB of output and is outside the generated sizes.)
+func TestC01_KdfCounterBytes(t *testing.T) {
+	observeTier()
+	h.Sweep(t, h.P{Name: "kdf-counter-bytes", Journal: true}, func(emit func(kdfCase)) {
+		zls := []int{0, 5, 55, 60, 63, 64, 100}
+		ns := []int{8159, 8160, 8161, 8191, 8192, 8193, 8224, 8225, 8448, 16385}
+		if h.Thorough() {
+			zls = append(zls, 1, 52, 59, 61, 62, 119, 128, 191, 252)
+			ns = append(ns, 8128, 8129, 8256, 8257, 9000, 12288, 16384, 24577, 32801, 65537)
+		}
+		for _, zl := range zls {
+			for i, n := range ns {
+				m := 0
+				if i%3 == 0 {
+					m = n + 97
+				}
+				emit(kdfCase{ZLen: zl, N: n, M: m, Off: zl % 3, G: (zl + n) % 3, Seed: h.Seed})
+			}
+		}
+		// third counter byte: 65535 / 65536 / 65537 output blocks
+		big := []kdfCase{{ZLen: 61, N: 65536*32 + 33, Seed: h.Seed}, {ZLen: 7, N: 65535*32 + 1, M: 65536*32 + 65, Seed: h.Seed}}
+		if h.Thorough() {
+			big = append(big, kdfCase{ZLen: 0, N: 65536 * 32, Seed: h.Seed}, kdfCase{ZLen: 64, N: 65537*32 - 1, Seed: h.Seed},
+				kdfCase{ZLen: 63, N: 65540*32 + 5, Seed: h.Seed}, kdfCase{ZLen: 100, N: 2*65536*32 + 40, Seed: h.Seed})
+		}
+		for _, c := range big {
+			emit(c)
+		}
+	}, checkKdf)
+}
